@@ -27,8 +27,7 @@ ScaleOk(r) ==
 
 RejectedOk(r) ==
   LET pk == ParseKey(r.asked) IN
-  /\ ~(pk.ok /\ Supported(pk.k))           \* a supported key is never refused
-  /\ r.stdoutLen = 0 /\ r.stderrLen > 0    \* no description, a diagnostic
+  /\ ~(pk.ok /\ Supported(pk.k))           \* a supported key is never refused (how a refusal looks is C09's business)
 
 ListingOk(r) ==
   /\ r.ok /\ NoDup(r.keys)
